@@ -72,6 +72,10 @@ var listKinds = []reflect.Type{
 	reflect.TypeOf([]Shade{}), reflect.TypeOf([]Tone{}), reflect.TypeOf([]Stamp{}), reflect.TypeOf([]time.Time{}), reflect.TypeOf([]bool{}),
 }
 
+// more list shapes, drawn from the second generator stream only (replay files pin seeds of the first): the
+// deepest wrapping the TypeRef fragment of the introspection query can print is 7 List/NonNull wrappers
+var deepListKinds = []reflect.Type{reflect.TypeOf([][][]int64{}), reflect.TypeOf([][]*Stamp{}), reflect.TypeOf([][]Ints{})}
+
 var fieldNames = []string{"Alpha", "Beta", "Gamma", "Delta", "Eps", "Zeta", "Eta", "Theta"}
 
 type GenSchema struct {
@@ -81,6 +85,9 @@ type GenSchema struct {
 	ArgSamples map[string][]string
 	Shapes     map[string]int // histogram of field shapes
 	rng        *vh.Rng
+	// extra: a second, independent stream for shapes added later (input-object arguments, deep lists), so that
+	// the schemas of pinned seeds (corpus and replay files) stay what they were; nil = none of them
+	extra *vh.Rng
 	// GoFields: the Go type and the way of registration of every generated field other than the paginated
 	// ones (for the model of getType / getReturnType, GqlTyping/GoTypes.v)
 	GoFields []GoField
@@ -122,7 +129,11 @@ type PRow struct {
 
 func (g *GenSchema) leafType(r *vh.Rng) reflect.Type {
 	if r.Chance(18) {
-		return listKinds[r.Intn(len(listKinds))] // (the builder accepts no pointer to a slice other than *[]byte)
+		t := listKinds[r.Intn(len(listKinds))] // (the builder accepts no pointer to a slice other than *[]byte)
+		if g.extra != nil && g.extra.Chance(25) {
+			t = deepListKinds[g.extra.Intn(len(deepListKinds))]
+		}
+		return t
 	}
 	t := scalarKinds[r.Intn(len(scalarKinds))]
 	switch r.Intn(6) {
@@ -223,9 +234,24 @@ var (
 
 type xArgs struct{ X int64 }
 
+// arguments with a nested struct: an input object to the builder (and to introspection: INPUT_OBJECT, inputFields)
+type innerArg struct {
+	A string
+	B *int64
+	C []string
+}
+type yArgs struct {
+	X  int64
+	In innerArg
+	Op *innerArg
+}
+
 // NewGenSchema builds a random schema from r.
-func NewGenSchema(r *vh.Rng) *GenSchema {
-	g := &GenSchema{Builder: schemabuilder.NewSchema(), ArgSamples: map[string][]string{}, Shapes: map[string]int{}, rng: r}
+func NewGenSchema(r *vh.Rng) *GenSchema { return NewGenSchemaX(r, nil) }
+
+// NewGenSchemaX: extra feeds the shapes of the second stream.
+func NewGenSchemaX(r, extra *vh.Rng) *GenSchema {
+	g := &GenSchema{Builder: schemabuilder.NewSchema(), ArgSamples: map[string][]string{}, Shapes: map[string]int{}, rng: r, extra: extra}
 	s := g.Builder
 	s.Enum(Shade(0), map[string]Shade{"LIGHT": Shade(0), "MID": Shade(1), "DARK": Shade(2)})
 	s.Enum(Tone(""), map[string]Tone{"WARM": Tone("warm"), "COLD": Tone("cold")})
@@ -402,7 +428,11 @@ func (g *GenSchema) addFuncTo(r *vh.Rng, o *schemabuilder.Object, owner, name st
 		}
 	}
 	hasArgs := r.Chance(25)
-	if hasArgs {
+	if hasArgs && g.extra != nil && g.extra.Chance(35) {
+		in = append(in, reflect.TypeOf(yArgs{}))
+		form += "args-with-input-object,"
+		g.ArgSamples[owner+"."+name] = []string{`(x: 1, in: {a: "s", c: []})`, `(x: -3, in: {a: "", b: 2, c: ["u", "v"]}, op: {a: "o", c: ["w"]})`}
+	} else if hasArgs {
 		in = append(in, reflect.TypeOf(xArgs{}))
 		form += "args,"
 		g.ArgSamples[owner+"."+name] = []string{"(x: 1)", "(x: -3)"}
